@@ -868,6 +868,7 @@ def OP_CALL(tape: Tape, stack: Stack, cache: dict) -> None:
     subtape.callstack_count = tape.callstack_count
 
     subtape.pointer = 0
+    subtape.flags = tape.flags
     run_tape(subtape, stack, cache, additional_flags=tape.flags)
     subtape.pointer = init_pointer
     subtape.returned = False
